@@ -1016,13 +1016,22 @@ def readGraph(input_file,
                                  'without subgraphs')
             for edge in dots[0].get_edge_list():
                 ends = edge.obj_dict['points']
-                if not all(isinstance(end, str) for end in ends):
-                    # `1 -> { 2 3 }` would be read only in part
-                    raise ValueError('Dot file must contain one graph, '
-                                     'without subgraphs')
+                for end in ends:
+                    # `1 -> { 2 3 }` is an edge to each vertex listed
+                    # between the braces, but anything else in there
+                    # (edges, further braces, default attributes)
+                    # would be dropped, and so would `1` in `1 -> { }`
+                    if not isinstance(end, str) and (
+                            end.get('edges') or end.get('subgraphs')
+                            or not end.get('nodes')
+                            or {'node', 'edge', 'graph'} & set(
+                                end.get('nodes', ()))):
+                        raise ValueError('Dot file must contain one graph, '
+                                         'without subgraphs')
                 # `2:n` is vertex 2 (the port only matters to drawings)
-                edge.obj_dict['points'] = tuple(_dot_vertex_of_endpoint(end)
-                                                for end in ends)
+                edge.obj_dict['points'] = tuple(
+                    _dot_vertex_of_endpoint(end) if isinstance(end, str)
+                    else end for end in ends)
             G = networkx.nx_pydot.from_pydot(dots[0])
             try:
                 # work around for a weird parse error in pydot, which
